@@ -254,7 +254,7 @@ PROPS = {
              "case; distinct = distinct case lines",
         trusted=SEARCH_TRUST + ["panic sites are compared as a small enum derived from the panic message; isize overflow is outside the property (well-formedness clause) and not modelled"],
         assumptions=[],
-        open=["C23_no_panic for the whole model (every fragment at once, through the re-entrant FD loop) is not proved; the fragment theorems are listed; the rest is carried by the correspondence on every generator"],
+        open=["C23_state_machine covers the constraint state machine (all kinds but distinctfd) through the re-entrant loop; distinctfd, project and the goal-level sites (assert-operand, unbound-domain) are carried by the correspondence on every generator"],
     ),
     "C01": dict(
         title="unification (State::unify vs unifyF)",
